@@ -293,3 +293,10 @@ func goStable(a []string) string {
 	}
 	return r
 }
+
+func minInt(a, b int) int {
+	if a < b {
+		return a
+	}
+	return b
+}
